@@ -203,11 +203,17 @@ Proof.
   - destruct Hinv as [(H1 & H2 & H3) Hf]. lbs. rewrite sub_app_left by lia. exact Hf.
 Qed.
 
-Lemma memrchr_bound b l i : memrchr b l = Some i -> i < length l.
+Lemma memrchr_aux_bound b l : forall i acc k,
+  memrchr_aux b l i acc = Some k -> acc = Some k \/ (i <= k /\ k < i + length l).
 Proof.
-  unfold memrchr. destruct (find_index (N.eqb b) (rev l)) as [k|] eqn:F; cbn; [|discriminate].
-  intro H. injection H as <-. apply find_index_some in F as (F & _). rewrite rev_length in F. lia.
+  induction l as [|x xs IH]; intros i acc k H; cbn [memrchr_aux] in H; [now left|].
+  apply IH in H as [H|H].
+  - destruct (N.eqb b x); [injection H as <-; right; cbn; lia|now left].
+  - right. cbn. lia.
 Qed.
+
+Lemma memrchr_bound b l i : memrchr b l = Some i -> i < length l.
+Proof. unfold memrchr. intro H. apply memrchr_aux_bound in H as [H|H]; [discriminate|lia]. Qed.
 
 Lemma inv_write b lb newbytes n llt' bin' :
   lb_inv b lb -> n <= length newbytes -> ~ In b (firstn n newbytes) ->
